@@ -867,6 +867,14 @@ class Folder:
                     return base[lo:hi:st_]
                 raise Unfoldable("slice")
             i = self.fold(sl)
+            if isinstance(i, PySeq) and not isinstance(sl, (ast.List, ast.ListComp)) and isinstance(base, list) and not isinstance(base, PySeq) and all(isinstance(t_, int) and not isinstance(t_, bool) for t_ in i):
+                # a python tuple of integers held in a variable: one index per axis (t[pos]; the empty tuple gives t itself)
+                cur_ = base
+                for t_ in i:
+                    if not isinstance(cur_, list) or not (-len(cur_) <= t_ < len(cur_)):
+                        raise Unfoldable("tuple index out of range")
+                    cur_ = cur_[t_]
+                return cur_
             if isinstance(base, list) and isinstance(i, int) and not isinstance(i, bool) and -len(base) <= i < len(base):
                 return base[i]
             if isinstance(base, list) and isinstance(i, BoolList) and len(i) == len(base) and not any(isinstance(t, list) for t in i):
@@ -1738,6 +1746,27 @@ class Folder:
                 if not isinstance(seq_, list) or not isinstance(r_, int) or isinstance(r_, bool) or len(seq_) > 24:
                     raise Unfoldable("combinations")
                 return PySeq(PySeq(c_) for c_ in _it.combinations(seq_, r_))
+            if nm in ("itertools.product", "product") and node.args and all(k.arg == "repeat" for k in node.keywords):
+                import itertools as _it
+
+                seqs_ = []
+                for a_ in node.args:
+                    if isinstance(a_, ast.Starred):
+                        many_ = self.fold(a_.value)
+                        if not isinstance(many_, list):
+                            raise Unfoldable("product")
+                        seqs_.extend(many_)
+                    else:
+                        seqs_.append(self.fold(a_))
+                rep_ = self.fold(node.keywords[0].value) if node.keywords else 1
+                if not all(isinstance(q_, (list, str, range)) for q_ in seqs_) or not isinstance(rep_, int) or isinstance(rep_, bool):
+                    raise Unfoldable("product of non-sequences")
+                total_ = 1
+                for q_ in seqs_:
+                    total_ *= max(len(q_), 1)
+                if total_ ** max(rep_, 1) > 100000:
+                    raise Unfoldable("product too long")
+                return PySeq(PySeq(c_) for c_ in _it.product(*seqs_, repeat=rep_))
             if nm in ("itertools.chain.from_iterable", "chain.from_iterable") and len(node.args) == 1:
                 outer = self.fold(node.args[0])
                 if not isinstance(outer, list) or not all(isinstance(q, list) for q in outer):
@@ -1776,6 +1805,8 @@ class Folder:
                 raise Unfoldable(f"call {nm}")
             if short == "bool" and nm == "bool" and node.args:
                 v = self.fold(node.args[0])
+                if isinstance(v, PySeq):
+                    return len(v) > 0  # a python sequence (a shape, a tuple): true when not empty
                 if isinstance(v, list):
                     raise Unfoldable("bool of a list")
                 return bool(v)
